@@ -23,7 +23,7 @@ CHECKS = {
     'C03': dict(
         engine='E1 bounded-exhaustive program enumeration on the real binary',
         technique='bounded-exhaustive enumeration of all operator/status programs up to a length, executed by the real binary and compared step by step with a reference interpreter (no sampling)',
-        text='All programs p1 op ... pn with op in {; && ||} and statuses {0,1} up to n = 5 (thorough 6), all programs up to n = 2 (3) with statuses {0,1,2,255}, decoy variants with quoted/escaped operators, two-stage pipelines as members, and members of ten kinds (external, assignment only, builtin ok/failing, cd ok/failing, export, not found, pipeline ending in a builtin; all programs of up to 2 members over all kinds and of 3 over five (thorough all) kinds, with and without a final $? probe), run by the real binary with -c and as script files; the record sequence, every $? probe and the process exit status must equal a reference interpreter.',
+        text='All programs p1 op ... pn with op in {; && ||} and statuses {0,1} up to n = 5 (thorough 6), all programs up to n = 2 (3) with statuses {0,1,2,255}, decoy variants with quoted/escaped operators, two-stage pipelines as members, and members of ten kinds (external, assignment only, builtin ok/failing, cd ok/failing, export, not found, pipeline ending in a builtin; all programs of up to 2 members over all kinds and of 3 over five (thorough all) kinds, with and without a final $? probe), run by the real binary with -c and as script files; the record sequence, every $? probe and the process exit status must equal a reference interpreter. Also: a member killed by a signal (128+n), operator spellings without blanks / with a trailing ; / with extra blanks, and decoys with escaped quotes.',
         note='Programs longer than the bound and the interactive entry point are outside; every pipeline is a recording helper program.',
         ref='DESIGN.md §4 C03'),
     'C04': dict(
@@ -35,7 +35,7 @@ CHECKS = {
     'C05': dict(
         engine='E1 bounded-exhaustive input sweep (in-process) + real binary',
         technique='bounded-exhaustive enumeration of all input strings up to a length over explicit alphabets, run through the real code (explicit-state style exploration, no sampling)',
-        text='Every string up to length 4 (thorough: 5-6) over two 14-symbol shell alphabets through every pure stage in-process, every string up to length 3-4 through planning under three variable environments (incl. self-referential values), every sequence of up to 4 (5) block-keyword script lines through grammar and interpreter, and every string up to length 3 (4) executed by the real binary; oracle: no panic, no abort, no confirmed hang, next command still runs.',
+        text='Every string up to length 4 (thorough: 5-6) over two 14-symbol shell alphabets through every pure stage in-process, every string up to length 3-4 through planning under three variable environments (incl. self-referential values), every sequence of up to 4 (5) block-keyword script lines through grammar and interpreter, and every string up to length 3 (4) executed by the real binary; oracle: no panic, no abort, no confirmed hang, next command still runs. A third alphabet C mixes the characters of A and B that interact ($ { } quotes backslash parentheses * ~ blank). Real binary also: every builtin with boundary argument lists (non-numeric, huge, negative, option-like, empty words).',
         note='Alphabets and lengths are the bound; pty keystroke sequences are not covered; hang detection uses a time limit confirmed by an isolated re-run.',
         ref='DESIGN.md §4 C05'),
     'C06': dict(
@@ -53,13 +53,13 @@ CHECKS = {
     'C09': dict(
         engine='E2 explicit-state BFS over the real shell (reference-model state dedup), real binary',
         technique='explicit-state model checking: BFS over the finite state space of variables / exported flags / cwd / previous dir with every operation executed on the real binary from every distinct state (thorough: to the fixpoint), compared with a reference model after every step',
-        text='22 operations (assignment with blank / empty / = and : values, export, unset, prefix assignment, read into one and two names, cd absolute / relative / .. / through a symlink / no argument / - / missing / non-directory) over names A and B and a generated directory tree are executed by the real binary from every distinct reference-model state: quick to depth 4, thorough to the fixpoint (588 states, 12.7 k transitions). After each operation a helper started by the shell records the "$A|$B|$PWD" expansion, its environment, its cwd; a relative redirection must land in the model cwd, a failed cd must return non-zero and change nothing, a prefix assignment must be seen by that command only.',
+        text='22 operations (assignment with blank / empty / = and : values, export, unset, prefix assignment, read into one and two names, cd absolute / relative / .. / through a symlink / no argument / - / missing / non-directory) over names A and B and a generated directory tree are executed by the real binary from every distinct reference-model state: quick to depth 4, thorough to the fixpoint (588 states, 12.7 k transitions). After each operation a helper started by the shell records the "$A|$B|$PWD" expansion, its environment, its cwd; a relative redirection must land in the model cwd, a failed cd must return non-zero and change nothing, a prefix assignment must be seen by that command only. Every probe ends with `cd -` and checks where it leads, so that the previous directory the shell remembers is observed after every operation.',
         note='Names, values and tree are the bound; states are reached by replaying their shortest history; state abstraction = the reference-model state.',
         ref='DESIGN.md §4 C09'),
     'C10': dict(
         engine='E1 bounded-exhaustive input sweep (in-process plan) + real binary',
         technique='bounded-exhaustive enumeration of all words built from reference/literal segments x quote forms x variable environments, planned by the real code against a reference single-pass expander; watchdog for non-termination; conformance replay through the real binary',
-        text='All words of 1..3 segments (thorough: 4, and 5 under the self/mutual/regex environments) over {a - $A ${A} $AB ${AB} $U ${U} $? $$}, unquoted / double-quoted / single-quoted, under nine variable environments (plain, blank, empty, reference to another variable, self-reference in both spellings, mutual reference, $1, regex-special) installed exported and shell-local, are planned by the real code; the argv must equal a reference single-pass expansion (double-quoted: exactly one argument; single-quoted: literal) and every case must terminate. Words of <= 2 segments are also executed by the real binary.',
+        text='All words of 1..3 segments (thorough: 4, and 5 under the self/mutual/regex environments) over {a - $A ${A} $AB ${AB} $U ${U} $? $$}, unquoted / double-quoted / single-quoted, under nine variable environments (plain, blank, empty, reference to another variable, self-reference in both spellings, mutual reference, $1, regex-special) installed exported and shell-local, are planned by the real code; the argv must equal a reference single-pass expansion (double-quoted: exactly one argument; single-quoted: literal) and every case must terminate. Words of <= 2 segments are also executed by the real binary. Also: variables that were shell-local first and exported afterwards (stale local copy still stored), and words with the characters that decide where an unbraced name ends (_ digit . multi-byte, a lone $, %).',
         note='Names and values are the bound; word splitting of unquoted results is accepted either way (statement silent).',
         ref='DESIGN.md §4 C10'),
     'C11': dict(
@@ -71,43 +71,43 @@ CHECKS = {
     'C12': dict(
         engine='E1 bounded-exhaustive input sweep (in-process plan) + real binary',
         technique='bounded-exhaustive enumeration of all well-formed brace terms, ranges, tilde forms and directory populations x patterns, planned by the real code against reference expanders; conformance replay through the real binary',
-        text='Every well-formed brace term over {a b { } ,} up to length 8 (thorough 10; nesting <= 3, <= 4 alternatives, <= 3 groups) in four position templates (also next to quoted arguments), all pairs of short terms, all ranges {m..n[..s]} over -3..3 (-5..5) x six steps with and without surrounding text, tilde forms, and every population subset of {a ab b .h "a b" d/ d/e} x ten patterns are planned by the real code and compared with reference brace / range / glob expanders (order, cartesian product, empty alternatives, inclusive sequences, sorted non-hidden matches or the pattern itself, quoted words untouched, words with blanks stay one argument). A subset is executed by the real binary.',
+        text='Every well-formed brace term over {a b { } ,} up to length 8 (thorough 10; nesting <= 3, <= 4 alternatives, <= 3 groups) in four position templates (also next to quoted arguments), all pairs of short terms, all ranges {m..n[..s]} over -3..3 (-5..5) x six steps with and without surrounding text, tilde forms, and every population subset of {a ab b .h "a b" d/ d/e} x ten patterns are planned by the real code and compared with reference brace / range / glob expanders (order, cartesian product, empty alternatives, inclusive sequences, sorted non-hidden matches or the pattern itself, quoted words untouched, words with blanks stay one argument). A subset is executed by the real binary. Also: ranges with bounds and steps at the ends of the 32-bit range.',
         note='Alphabet, length and population universe are the bound; empty words may be kept or dropped; ~name and patterns ending in / are outside the statement.',
         ref='DESIGN.md §4 C12'),
     'C13': dict(
         engine='E1 bounded-exhaustive input sweep (in-process plan, substitutions executed) + real binary',
         technique='exhaustive enumeration of payload x delivery x quoting x position combinations, planned and executed by the real code; oracle = template structure with the payload as argument text only',
-        text='22 payloads containing every operator character alone and embedded are delivered through $V (exported and shell-local), ${V}, $(cmd), backquotes and a file name matched by *, unquoted and double-quoted, at six argument positions; the real planner must keep the template structure (no pipe, background job, extra command, redirection) and pass the payload as argument text (one argument inside double quotes). The same deliveries are executed by the real binary at two positions: helper runs once, in the foreground, no file appears.',
+        text='22 payloads containing every operator character alone and embedded are delivered through $V (exported and shell-local), ${V}, $(cmd), backquotes and a file name matched by *, unquoted and double-quoted, at six argument positions; the real planner must keep the template structure (no pipe, background job, extra command, redirection) and pass the payload as argument text (one argument inside double quotes). The same deliveries are executed by the real binary at two positions: helper runs once, in the foreground, no file appears. Also (differential against a neutral value): references glued to literal text in 8 word shapes (including a literal & inside the word), and whole / glued words next to a real `< file`, `<<< word` and as here-string operand.',
         note='Payload list is the bound; unquoted results may be split at blanks.',
         ref='DESIGN.md §4 C13'),
     'C14': dict(
         engine='E1 exhaustive AST enumeration + E3 choice-prefix DFS over scripted condition answers, real binary',
         technique='exhaustive enumeration of all abstract syntax trees up to a node bound, with a stateless choice-prefix DFS over every scripted condition answer (environment answers as choice points), executed by the real binary against a reference interpreter',
-        text='All ASTs over {command, if with up to 3 conditional arms and optional else, for over 0..2 words, while, break, continue} with up to 4 (thorough 5: about 21 k trees) statement nodes and depth <= 3 are rendered in both spellings with two layouts; every condition is a helper whose answers are scripted and each dynamic evaluation is a choice point (all answer strings of up to 4 (6) answers that the run consumes, false beyond the prefix). The marker / condition-evaluation trace of the real binary must equal the reference interpreter (first true branch only, re-test before every iteration, loop variable binding, break/continue on the innermost loop). Negatives: every small tree with one block keyword line deleted must give a diagnostic and a non-zero status.',
+        text='All ASTs over {command, if with up to 3 conditional arms and optional else, for over 0..2 words, while, break, continue} with up to 4 (thorough 5: about 21 k trees) statement nodes and depth <= 3 are rendered in both spellings with two layouts; every condition is a helper whose answers are scripted and each dynamic evaluation is a choice point (all answer strings of up to 4 (6) answers that the run consumes, false beyond the prefix). The marker / condition-evaluation trace of the real binary must equal the reference interpreter (first true branch only, re-test before every iteration, loop variable binding, break/continue on the innermost loop). Negatives: every small tree with one block keyword line deleted must give a diagnostic and a non-zero status. Also: conditions written as `c || c` / `c && c` lists (trees of up to 3, thorough 4, nodes), and a rendering in which every command carries block keywords as ordinary arguments.',
         note='Tree size, answer-string length and word lists are the bound; conditions and commands are helpers.',
         ref='DESIGN.md §4 C14'),
     'C15': dict(
         engine='E1 bounded-exhaustive script generation on the real binary',
         technique='bounded-exhaustive enumeration of argument lists x reference forms x frames, function names x headers x arities, source chains, and all bodies of status-relevant lines up to a length, executed by the real binary against a reference model of frames, persistence and status propagation',
-        text='All argument lists of length 0..2 (thorough 0..3) over {x, "a b", $, \'q\', empty} x 11 reference forms ($0 $1 ${2} $3 $9 $@ "$@", glued and quoted forms) in a script frame and in a function frame; function names f, g-h, _k x both header spellings x arities 0..2 defined in the script or in a sourced file; source chains of depth 1..3 defining a variable, an alias, a function and changing directory; all bodies of up to 3 (4) lines over {succeeding command, failing command, exit 5, set -e, function call with status 4, source with status 2} at top level and inside an if body followed by a further command. The real binary must show the reference frames, persistence, record sequence and process exit status.',
+        text='All argument lists of length 0..2 (thorough 0..3) over {x, "a b", $, \'q\', empty} x 11 reference forms ($0 $1 ${2} $3 $9 $@ "$@", glued and quoted forms) in a script frame and in a function frame; function names f, g-h, _k x both header spellings x arities 0..2 defined in the script or in a sourced file; source chains of depth 1..3 defining a variable, an alias, a function and changing directory; all bodies of up to 3 (4) lines over {succeeding command, failing command, exit 5, set -e, function call with status 4, source with status 2} at top level and inside an if body followed by a further command. The real binary must show the reference frames, persistence, record sequence and process exit status. Argument values also a;b a|b >f a& backslash #c (single arguments; thorough all lists); the same references inside the condition line of if / while.',
         note='Unquoted references may be split at blanks; functions are called after their definition; two open known findings (values containing a quote character or a dollar sign are re-parsed after substitution).',
         ref='DESIGN.md §4 C15'),
     'C16': dict(
         engine='E1 bounded-exhaustive input sweep (in-process, differential between entry paths) + real binary through four entry points',
         technique='bounded-exhaustive enumeration of all lines over a 14-symbol alphabet with a differential oracle between the -c path and the script path of the real code; entry-point replay of bounded line sets through the real binary',
-        text='For every complete line up to length 4 (thorough 6) over {blank a quote dquote backslash | ; & > $ * ( ) {} the plans of the -c/prompt path and of the script/function/source path (after the positional-parameter pass) must be identical: list structure, argv, redirections, assignments, background flag. Bounded line sets from C01, C03, C04 and C10-C12 (about 240 lines, thorough about 1300) are run by the real binary through -c, a script file, a function body and a sourced file and compared with the -c run on helper records, created files, output and exit status.',
+        text='For every complete line up to length 4 (thorough 6) over {blank a quote dquote backslash | ; & > $ * ( ) {} the plans of the -c/prompt path and of the script/function/source path (after the positional-parameter pass) must be identical: list structure, argv, redirections, assignments, background flag. Bounded line sets from C01, C03, C04 and C10-C12 (about 240 lines, thorough about 1300) are run by the real binary through -c, a script file, a function body and a sourced file and compared with the -c run on helper records, created files, output and exit status. Line sets also: comment-like text (# after a blank / tab inside quotes, escaped, real comments), runs of blanks that are data, an escaped blank at the end of the line, escaped $ / | as the last word, !! inside single quotes (prompt sessions are primed with a previous command).',
         note='Lines without positional parameters and newlines; incomplete lines are skipped; the interactive prompt entry point is not driven by this check.',
         ref='DESIGN.md §4 C16'),
     'C17': dict(
         engine='E2 explicit-state BFS over the alias table on the real binary (differential oracle)',
         technique='explicit-state model checking of the alias table (49 states, every operation from every state, thorough: to the fixpoint) on the real binary with a differential oracle: a use must behave like the textually substituted line in a fresh alias-free shell',
-        text='Two names (one with . and -) x six values (option, double-quoted blank, single-quoted word, self reference, reference to the other alias, pipeline): every define / redefine (both quote kinds) / unalias is executed from every table state (quick: BFS depth 2 reaching all 49 states; thorough: fixpoint); after each operation the uses at line start, after |, after ;, after && and as a non-first word are executed and must equal the substituted line run without aliases (records and status; self/mutual references must not loop), the `alias` listing fed back to a fresh shell must recreate the same table and the same behaviour, `alias NAME` prints one definition, `unalias NAME` removes exactly NAME.',
+        text='Two names (one with . and -) x six values (option, double-quoted blank, single-quoted word, self reference, reference to the other alias, pipeline): every define / redefine (both quote kinds) / unalias is executed from every table state (quick: BFS depth 2 reaching all 49 states; thorough: fixpoint); after each operation the uses at line start, after |, after ;, after && and as a non-first word are executed and must equal the substituted line run without aliases (records and status; self/mutual references must not loop), the `alias` listing fed back to a fresh shell must recreate the same table and the same behaviour, `alias NAME` prints one definition, `unalias NAME` removes exactly NAME. Uses also after ||, after ; without blank, with a redirection, and as head of a pipeline with a redirection.',
         note='Names and values are the bound; record order inside a pipeline and the order of the listing are not compared.',
         ref='DESIGN.md §4 C17'),
     'C18': dict(
         engine='E2 explicit histories of history operations across shell processes + E5 pty sessions, real binary',
         technique='exhaustive enumeration of all operation sequences up to a depth x process splits x directory names on the real binary with an independent sqlite reader, plus exhaustive typed-line sequences on a pseudo-terminal',
-        text='All sequences of up to 2 (thorough 3) operations over history add (8 texts with quotes, percent, underscore, backslash, semicolon/comment, multi-byte), list, search (5 patterns), -p and delete, each in its own shell process on one database created by the shell itself (interactive start on a pty), in directories named plain / with a quote / with a percent sign; the rows read back with python sqlite3 must equal the reference list (byte-equal texts, submission order, delete removes exactly the named row) and no listing / search / add may report an error. Interactive: all sequences of up to 3 typed lines over {command, same with leading blank, other command, repeat} with HISTORY_DELETE_DUPS 0 and 1, also as seen by a later shell process.',
+        text='All sequences of up to 2 (thorough 3) operations over history add (8 texts with quotes, percent, underscore, backslash, semicolon/comment, multi-byte), list, search (5 patterns), -p and delete, each in its own shell process on one database created by the shell itself (interactive start on a pty), in directories named plain / with a quote / with a percent sign; the rows read back with python sqlite3 must equal the reference list (byte-equal texts, submission order, delete removes exactly the named row) and no listing / search / add may report an error. Interactive: all sequences of up to 3 typed lines over {command, same with leading blank, other command, repeat} with HISTORY_DELETE_DUPS 0 and 1, also as seen by a later shell process. Also: `history add` without a time stamp (every ordered selection of 2..3 texts, listings in later processes), typed lines that match one another as LIKE patterns / differ only in case / contain quotes, backslash, multi-byte text, a list operator, a comment, and a typed `!!`.',
         note='Texts, patterns and directory names are the bound; add operations carry explicit increasing time stamps.',
         ref='DESIGN.md §4 C18'),
     'C19': dict(
@@ -125,7 +125,7 @@ CHECKS = {
     'C07': dict(
         engine='E5 pty session explorer on the real interactive binary with a reference model of job state',
         technique='exhaustive enumeration of all action sequences enabled in a reference model up to a depth, plus explicit-state breadth-first search over the canonical states of that model (every transition out of every distinct state; thorough: to the fixpoint for the reduced alphabet), each path replayed on the real interactive binary under a pseudo-terminal with a controlled schedule (gated helpers, awaited conditions instead of sleeps), oracle evaluated after every action',
-        text='All sequences of 4 actions over the reduced alphabet (984) and of 3 actions over the full alphabet (thorough: 4 over the full alphabet, 9.8 k sessions, and 5 over the reduced one) from {launch fg pipeline of 1/2 stages, launch bg pipeline, Ctrl-Z, Ctrl-C, fg <id>, bg <id>, external SIGSTOP / SIGCONT / SIGKILL of a member, release the gate (normal exit), jobs, empty line, not-found and failing command} with <= 2 jobs alive, and every transition out of every distinct reference-model state reachable within 6 actions of the reduced alphabet (537 states, 1.9 k transitions; thorough: fixpoint of the reduced alphabet, about 2.2 k states / 15 k transitions, and depth 6 of the full alphabet, 1.5 k states / 9.8 k transitions), are replayed from a fresh interactive shell on a pty; after every action the driver waits for the condition the model predicts: tcgetpgrp of the terminal = group of the running foreground job, else the shell group; every stage in the group of the first stage; members stopped / running / gone in /proc; the parsed `jobs` listing equals the model (ids, leaders, Stopped/Running), also at the end of every sequence.',
+        text='All sequences of 4 actions over the reduced alphabet (984) and of 3 actions over the full alphabet (thorough: 4 over the full alphabet, 9.8 k sessions, and 5 over the reduced one) from {launch fg pipeline of 1/2 stages, launch bg pipeline, Ctrl-Z, Ctrl-C, fg <id>, bg <id>, external SIGSTOP / SIGCONT / SIGKILL of a member, release the gate (normal exit), jobs, empty line, not-found and failing command} with <= 2 jobs alive, and every transition out of every distinct reference-model state reachable within 6 actions of the reduced alphabet (537 states, 1.9 k transitions; thorough: fixpoint of the reduced alphabet, about 2.2 k states / 15 k transitions, and depth 6 of the full alphabet, 1.5 k states / 9.8 k transitions), are replayed from a fresh interactive shell on a pty; after every action the driver waits for the condition the model predicts: tcgetpgrp of the terminal = group of the running foreground job, else the shell group; every stage in the group of the first stage; members stopped / running / gone in /proc; the parsed `jobs` listing equals the model (ids, leaders, Stopped/Running), also at the end of every sequence. A third explicit-state layer (polls: one background two-stage pipeline, stop / continue / kill of either member, jobs) is explored to its fixpoint with model states that also distinguish what the shell was told at its last poll.',
         note='Signal delivery is serialised by the driver (simultaneous arrivals are C06); fg/bg always get an explicit id; each condition is awaited at most 5 s.',
         ref='DESIGN.md §4 C07'),
 }
